@@ -51,6 +51,17 @@ pub fn dump(thorough: bool, dir: &str, mut whole: Vec<Value>) -> i32 {
         ndocs += 1;
     }
     std::fs::write(format!("{dir}/whole.json"), serde_json::to_string(&whole).unwrap()).unwrap();
+    // the registry as a member of a user's own document type: its schema is then one of the definitions of that schema
+    #[derive(schemars::JsonSchema)]
+    #[allow(dead_code)]
+    struct Embedding {
+        version: u32,
+        registry: PortableRegistry,
+        second: Option<PortableRegistry>,
+    }
+    std::fs::write(format!("{dir}/schema_embedded.json"), serde_json::to_string(&schemars::schema_for!(Embedding)).unwrap()).unwrap();
+    let wrapped: Vec<Value> = whole.iter().map(|d| json!({"version": 14, "registry": d, "second": null})).collect();
+    std::fs::write(format!("{dir}/whole_embedded.json"), serde_json::to_string(&wrapped).unwrap()).unwrap();
     println!("{}", json!({"registries": regs.len(), "entries": entries.len(), "entry_documents": ndocs, "whole_documents": whole.len()}));
     0
 }
